@@ -1,8 +1,10 @@
 (* C19 -- transient filesystem faults never yield a silently wrong packed dataset.
    Statements only; proofs live in Proofs/. *)
 From Coq Require Import ZArith List Bool Arith String.
+From Coq Require Import Permutation.
 From SP Require Import Harness Model.FS Model.PackFS Model.Retry Spec.PackSpec Proofs.PackExamples
-  Proofs.RetryProofs.
+  Proofs.RetryProofs Proofs.RetryRecoverInv Proofs.RetryRecoverRun Proofs.RetryRecover
+  Proofs.RetryRecoverExamples.
 Import ListNotations.
 
 (* C19_all_or_error.  For EVERY retry budget K, EVERY fault schedule that contains no lying
@@ -122,3 +124,171 @@ Example C19_recover_M_runs_abort :
   forallb (fun pos => aborts 1 (single pos FRaise) TInside) (seq 0 75) = true /\
   forallb (fun pos => aborts 1 (single pos FRaise) (TExternal [])) (seq 0 75) = true.
 Proof. exact aborts_M. Qed.
+
+(* ================================================================== C19_recover, in general *)
+(* C19_recover.  For EVERY prior tree, configuration (npartitions, input partitions, assignment
+   matrix, task orders, default temp directories or ANY external temp parent -- C10_layout's
+   hypotheses), EVERY retry budget and EVERY fault schedule -- any number of faults of all six
+   modelled kinds (lying existence checks included) at any positions, within or beyond the
+   budget -- such that the call ABORTS leaving the tree [st_fs s]: the fault-free repeat of the
+   call with overwrite=True (same dataset path, npartitions and temp-directory locations;
+   [recover_cfg]: any task orders) returns, and the tree it leaves is path by path
+   [expected_node f0 cfg parts] -- the tree C10_layout gives for the call on the ORIGINAL prior
+   tree f0: below the dataset path exactly part.0..part.(m-1), _metadata, _common_metadata;
+   everywhere else the prior tree (plus the directories makedirs creates on the way).  In
+   particular nothing the aborted run left -- under the dataset path or in the per-partition
+   temp directories tmp_path cfg N -- survives.
+   Scope: the repeat uses the SAME temp-directory paths (tempdir_format=None, or a format
+   without a per-call component).  With a {uuid} in the format the repeat draws a new uuid:
+   see C19_recover_fresh_tmp and C19_recover_uuid_debris_refuted below. *)
+Theorem C19_recover : forall n sched f0 cfg asg io co s,
+  prior_ok f0 cfg -> tmp_separate cfg -> wf_asg (c_k cfg) asg -> wf_orders cfg asg ->
+  wf_orders (recover_cfg cfg io co) asg ->
+  nonempty_outputs (c_k cfg) asg <> [] ->
+  packF n sched f0 cfg asg = Err s ->
+  exists parts f2,
+    pack (st_fs s) (recover_cfg cfg io co) asg = OK parts f2 /\
+    (forall q, node_at f2 q = expected_node f0 cfg parts q) /\
+    Forall2 (fun p N => Permutation p (cells_of asg N)) parts (nonempty_outputs (c_k cfg) asg).
+Proof. exact recover_general. Qed.
+Print Assumptions C19_recover.
+
+(* C19_recover_same_tree.  ... against the fault-free run itself: the fault-free call on the
+   original prior tree returns (C10_layout), and the repeat after the aborted run ends in the
+   same tree, node by node -- [tree_eqb_at] is the model's own equality of nodes ([onode_eqb],
+   what the correspondence run compares trees with): the same directories, the same files, a
+   data file holding the same rows as a bag (the order in which sub-parts are concatenated is
+   not part of the model's notion of a file; the code sorts the rows afterwards). *)
+Theorem C19_recover_same_tree : forall n sched f0 cfg asg io co s,
+  prior_ok f0 cfg -> tmp_separate cfg -> wf_asg (c_k cfg) asg -> wf_orders cfg asg ->
+  wf_orders (recover_cfg cfg io co) asg ->
+  nonempty_outputs (c_k cfg) asg <> [] ->
+  packF n sched f0 cfg asg = Err s ->
+  exists parts1 f1 parts2 f2,
+    pack f0 cfg asg = OK parts1 f1 /\
+    pack (st_fs s) (recover_cfg cfg io co) asg = OK parts2 f2 /\
+    Forall2 (@Permutation cell) parts2 parts1 /\
+    forall q, tree_eqb_at f2 f1 q = true.
+Proof. exact recover_same_tree. Qed.
+Print Assumptions C19_recover_same_tree.
+
+(* the same from whatever state a run leaves (returned or raised), either instance of the model *)
+Theorem C19_recover_any_state : forall lies n sched f0 cfg asg io co,
+  prior_ok f0 cfg -> tmp_separate cfg -> wf_asg (c_k cfg) asg -> wf_orders cfg asg ->
+  wf_orders (recover_cfg cfg io co) asg ->
+  nonempty_outputs (c_k cfg) asg <> [] ->
+  forall s, (packF_gen lies n sched f0 cfg asg = Err s \/
+             exists r, packF_gen lies n sched f0 cfg asg = OK r s) ->
+  exists parts f2,
+    pack (st_fs s) (recover_cfg cfg io co) asg = OK parts f2 /\
+    (forall q, node_at f2 q = expected_node f0 cfg parts q) /\
+    Forall2 (fun p N => Permutation p (cells_of asg N)) parts (nonempty_outputs (c_k cfg) asg).
+Proof. exact recover_from_any_state. Qed.
+Print Assumptions C19_recover_any_state.
+
+(* the invariant behind it: every tree a run over the faulty filesystem leaves has unique
+   paths, is a tree at the dataset path, equals the prior tree outside the paths the call owns
+   (dataset path, per-partition temp directories) up to directories created on the way, and
+   holds nothing in an external temp directory but sub-part files of the assignment *)
+Theorem C19_aborted_tree_invariant : forall cfg asg f0,
+  prior_ok f0 cfg -> tmp_separate cfg -> wf_asg (c_k cfg) asg ->
+  (forall N, In N (c_corder cfg) -> N < c_k cfg) ->
+  forall lies n sched,
+  match packF_gen lies n sched f0 cfg asg with
+  | OK _ s => Inv cfg asg f0 (st_fs s)
+  | Err s => Inv cfg asg f0 (st_fs s)
+  end.
+Proof. exact packF_Inv. Qed.
+Print Assumptions C19_aborted_tree_invariant.
+
+(* C19_recover_faulty_repeat.  The repeat may ITSELF suffer faults (any schedule without a lying
+   existence check, any budget): if it returns, the tree it leaves is again the tree of
+   C10_layout for the original prior tree (C19_recover composed with C19_all_or_error). *)
+Theorem C19_recover_faulty_repeat : forall n sched f0 cfg asg io co s n2 sched2 parts2 s2,
+  prior_ok f0 cfg -> tmp_separate cfg -> wf_asg (c_k cfg) asg -> wf_orders cfg asg ->
+  wf_orders (recover_cfg cfg io co) asg ->
+  nonempty_outputs (c_k cfg) asg <> [] ->
+  packF n sched f0 cfg asg = Err s ->
+  ~ In (Some FLie) sched2 ->
+  packF n2 sched2 (st_fs s) (recover_cfg cfg io co) asg = OK parts2 s2 ->
+  (forall q, node_at (st_fs s2) q = expected_node f0 cfg parts2 q) /\
+  Forall2 (fun p N => Permutation p (cells_of asg N)) parts2 (nonempty_outputs (c_k cfg) asg).
+Proof. exact recover_faulty_repeat. Qed.
+Print Assumptions C19_recover_faulty_repeat.
+
+Theorem C19_recover_faulty_repeat_gen : forall lies n sched f0 cfg asg io co s n2 sched2 parts2 s2,
+  prior_ok f0 cfg -> tmp_separate cfg -> wf_asg (c_k cfg) asg -> wf_orders cfg asg ->
+  wf_orders (recover_cfg cfg io co) asg ->
+  nonempty_outputs (c_k cfg) asg <> [] ->
+  packF_gen lies n sched f0 cfg asg = Err s ->
+  packF_gen false n2 sched2 (st_fs s) (recover_cfg cfg io co) asg = OK parts2 s2 ->
+  (forall q, node_at (st_fs s2) q = expected_node f0 cfg parts2 q) /\
+  Forall2 (fun p N => Permutation p (cells_of asg N)) parts2 (nonempty_outputs (c_k cfg) asg).
+Proof. exact recover_faulty_repeat_gen. Qed.
+Print Assumptions C19_recover_faulty_repeat_gen.
+
+(* C19_recover_fresh_tmp.  tempdir_format with a per-call component ({uuid}): the repeat uses
+   other per-partition temp directories <t2>/t<N>.  Provided these are fresh in the tree the
+   first run left, the fault-free repeat with overwrite=True returns and leaves
+   [expected_node (st_fs s) cfg2 parts]: below the dataset path exactly the fault-free dataset;
+   everywhere else the tree AS THE ABORTED RUN LEFT IT, plus the directories on the way to the
+   dataset path and to t2.  So the dataset is recovered, but the temp directories of the
+   aborted run and the sub-part files in them stay: C19_recover_uuid_debris_refuted. *)
+Theorem C19_recover_fresh_tmp : forall lies n sched f0 cfg asg t2 io co,
+  prior_ok f0 cfg -> tmp_separate cfg -> wf_asg (c_k cfg) asg -> wf_orders cfg asg ->
+  tmp_separate (retmp_cfg cfg t2 io co) -> wf_orders (retmp_cfg cfg t2 io co) asg ->
+  nonempty_outputs (c_k cfg) asg <> [] ->
+  forall s, (packF_gen lies n sched f0 cfg asg = Err s \/
+             exists r, packF_gen lies n sched f0 cfg asg = OK r s) ->
+  (forall q, on_the_way q t2 = true -> isfile_b (st_fs s) q = false) ->
+  (forall N q, is_prefix (t2 ++ [NTmp N]) q = true -> node_at (st_fs s) q = None) ->
+  exists parts f2,
+    pack (st_fs s) (retmp_cfg cfg t2 io co) asg = OK parts f2 /\
+    (forall q, node_at f2 q = expected_node (st_fs s) (retmp_cfg cfg t2 io co) parts q) /\
+    Forall2 (fun p N => Permutation p (cells_of asg N)) parts (nonempty_outputs (c_k cfg) asg).
+Proof. exact recover_fresh_tmp. Qed.
+Print Assumptions C19_recover_fresh_tmp.
+
+(* "after the repeat nothing of the aborted run is left" is FALSE for tempdir_format =
+   tmp/{uuid}/t{partition}: setup M, the 31st call fails (budget 1); the repeat with a new uuid
+   returns with the right dataset, and tmp/<uuid1>/t0/part1.parquet -- a copy of input rows that
+   is neither in the prior tree nor in the fault-free tree -- is still there.  The real code
+   shows it (fresh uuid4 per call): finding `recover-leaves-aborted-tempdirs`. *)
+Theorem C19_recover_uuid_debris_refuted :
+  exists s parts f2 parts1 f1 q,
+    packF 1 sched_abort priorM (cfgM (TExternal uuid_parent)) asgM = Err s /\
+    pack (st_fs s) (retmp_cfg (cfgM (TExternal uuid_parent)) uuid_parent2 io2 co2) asgM = OK parts f2 /\
+    pack priorM (cfgM (TExternal uuid_parent)) asgM = OK parts1 f1 /\
+    fs_eqb (filter (fun e => is_prefix ds (fst e)) f2) datasetM = true /\
+    is_prefix ds q = false /\
+    node_at priorM q = None /\ node_at f1 q = None /\
+    node_at f2 q = Some (File (CRows [(1, 0)])).
+Proof. exact uuid_debris_stays. Qed.
+Print Assumptions C19_recover_uuid_debris_refuted.
+
+(* non-vacuity of C19_recover: its premises hold for setup M with flat external temp
+   directories; the run with budget 1 and a torn write at the 31st call ABORTS leaving a
+   half-built dataset and sub-part files in t0/, t2/ outside the dataset; the repeat with
+   overwrite=True (other task orders) ends in exactly keep/ + the fault-free dataset *)
+Example C19_recover_example_flat :
+  (prior_ok priorM (cfgM (TExternal [])) /\ tmp_separate (cfgM (TExternal [])) /\ wf_asg 4 asgM /\
+   wf_orders (cfgM (TExternal [])) asgM /\ wf_orders (recover_cfg (cfgM (TExternal [])) io2 co2) asgM /\
+   nonempty_outputs 4 asgM <> []) /\
+  exists s parts f2,
+    packF 1 sched_abort priorM (cfgM (TExternal [])) asgM = Err s /\
+    node_at (st_fs s) [NTmp 0; NSub 1] = Some (File (CRows [(1, 0)])) /\
+    node_at (st_fs s) [NTmp 2; NSub 1] = Some (File (CRows [(1, 2)])) /\
+    node_at (st_fs s) (ds ++ [NPart 0]) = Some Dir /\
+    node_at (st_fs s) (ds ++ [NMeta]) = None /\
+    pack (st_fs s) (recover_cfg (cfgM (TExternal [])) io2 co2) asgM = OK parts f2 /\
+    fs_eqb f2 (keepM ++ datasetM) = true /\
+    node_at f2 [NTmp 0] = None /\ node_at f2 [NTmp 2; NSub 1] = None.
+Proof. exact recover_example_flat. Qed.
+
+Example C19_recover_example_inside :
+  exists s parts f2,
+    packF 1 sched_abort priorM (cfgM TInside) asgM = Err s /\
+    node_at (st_fs s) (ds ++ [NPart 0; NSub 1]) = Some (File (CRows [(1, 0)])) /\
+    pack (st_fs s) (recover_cfg (cfgM TInside) io2 co2) asgM = OK parts f2 /\
+    fs_eqb f2 (keepM ++ datasetM) = true.
+Proof. exact recover_example_inside. Qed.
